@@ -330,6 +330,7 @@ func checkC07(ctx *Ctx) {
 		"cluster formation, elections and gossip run on real timers: not reaching quiescence or a leader within the watchdog is inconclusive, never a violation",
 		"no key expires during a cluster history: touching an expired key on a cluster leader is the listed finding C07-KF2")
 	if ctx.Fork(8, "", ctx.Watchdog()) {
+		c07Aggregate(ctx)
 		return
 	}
 	quietLogs()
@@ -625,11 +626,9 @@ func (h *c07Run) followerWrite() {
 		}
 		return false
 	})
+	h.ctx.Count("forward_sent", 1)
 	if !arrived {
-		h.ctx.Violate(Violation{Kind: "forward_lost", Lane: h.lane,
-			What: fmt.Sprintf("follower %s (forwarding enabled) answered %s to %s but the command did not appear in the leader's log within 45 s (90 gossip intervals)", f.id, trunc(v.String(), 40), Step{Argv: argv}.String()),
-			Case: map[string]interface{}{"script": h.scriptCopy()}, Key: "c07|forward|lost"})
-		h.bad = true
+		h.forwardLost(1, fmt.Sprintf("follower %s (forwarding enabled) answered %s to %s but the command did not appear in the leader's log within 45 s (90 gossip intervals)", f.id, trunc(v.String(), 40), Step{Argv: argv}.String()))
 		return
 	}
 	if !h.c.quiesce() {
@@ -738,11 +737,16 @@ func (h *c07Run) forwardBurst() {
 	time.Sleep(600 * time.Millisecond)
 	h.c.quiesce()
 	sets, incrs := count()
-	if !arrived || sets != 4 || incrs != same {
-		h.ctx.Violate(Violation{Kind: "forward_count", Lane: h.lane,
-			What: fmt.Sprintf("follower %s acknowledged 4 SETs of distinct keys and %d identical INCRs sent back to back; the leader's log received %d SETs and %d INCRs (waited up to 45 s)", f.id, same, sets, incrs),
-			Case: map[string]interface{}{"script": h.scriptCopy(), "leader_log_tail": h.c.logTail(l.id, 12)}, Key: fmt.Sprintf("c07|forward|burst|sets=%v|incrs=%v", sets == 4, incrs == same)})
+	h.ctx.Count("forward_sent", int64(len(cmds)))
+	if sets > 4 || incrs > same {
+		h.ctx.Violate(Violation{Kind: "forward_duplicate", Lane: h.lane,
+			What: fmt.Sprintf("follower %s acknowledged 4 SETs of distinct keys and %d identical INCRs sent back to back; the leader's log received %d SETs and %d INCRs", f.id, same, sets, incrs),
+			Case: map[string]interface{}{"script": h.scriptCopy(), "leader_log_tail": h.c.logTail(l.id, 12)}, Key: "c07|forward|burst|duplicate"})
 		h.bad = true
+		return
+	}
+	if !arrived || sets != 4 || incrs != same {
+		h.forwardLost(4-sets+same-incrs, fmt.Sprintf("follower %s acknowledged 4 SETs of distinct keys and %d identical INCRs sent back to back; the leader's log received %d SETs and %d INCRs (waited up to 45 s)", f.id, same, sets, incrs))
 		return
 	}
 	// reference: the commands commute
@@ -755,6 +759,51 @@ func (h *c07Run) forwardBurst() {
 		h.sess.st = outs[0].State
 	}
 	h.converge("forward-burst")
+}
+
+// forwardLost records forwarded writes that never reached the leader. Forwarding is fire-and-forget
+// (the follower answers OK before anything is delivered), so a single loss cannot be told from the
+// listed sporadic loss (C07-KF3) on the spot: the verdict is taken over the whole run in c07Aggregate.
+// The history ends here: the lost command might still arrive later.
+func (h *c07Run) forwardLost(n int, what string) {
+	h.ctx.Count("forward_lost", int64(n))
+	h.log("!! %s", what)
+	l := h.c.leader()
+	tail := []string{}
+	if l != nil {
+		tail = h.c.logTail(l.id, 8)
+	}
+	h.ctx.mu.Lock()
+	h.ctx.extra["c07_forward_lost_example"] = map[string]interface{}{"what": what, "script_tail": lastN(h.scriptCopy(), 25), "leader_log_tail": tail, "server_log_tail": serverLog.tail(40)}
+	h.ctx.mu.Unlock()
+	h.bad = true
+}
+
+func lastN(s []string, n int) []string {
+	if len(s) > n {
+		return s[len(s)-n:]
+	}
+	return s
+}
+
+// c07Aggregate decides the forwarded-write losses of the whole run (parent process, after the workers' results were merged).
+func c07Aggregate(ctx *Ctx) {
+	lost, sent := ctx.Counter("forward_lost"), ctx.Counter("forward_sent")
+	if lost == 0 {
+		return
+	}
+	tolerated := sent / 50
+	if tolerated < 2 {
+		tolerated = 2
+	}
+	if findingOpen("C07-KF3") && lost <= tolerated {
+		ctx.KnownReproduced("C07-KF3")
+		return
+	}
+	ex := ctx.extra["c07_forward_lost_example"]
+	ctx.Violate(Violation{Kind: "forward_lost", Lane: "history",
+		What: fmt.Sprintf("%d of %d writes that forwarding followers acknowledged with OK never appeared in the leader's log (each waited for 45 s)", lost, sent),
+		Case: map[string]interface{}{"example": ex}, Key: "c07|forward|lost"})
 }
 
 func eqArgv(a, b []string) bool {
